@@ -290,14 +290,25 @@ def scc_bounded(prog, comp):
             continue
         f = prog.fns[k]
         succ = set(x for x in prog.callgraph.get(k, ()) if x in scc)
-        if wr and f.kind == "Fn":
+        if wr and f.kind in ("Fn", "Closure"):
             try:
                 tree = et.build_local(f, 0)
             except Exception:
                 tree = None
+            # a parser written by hand applies its sub-parsers one by one (`nested(N, rule)(i)`): the references sit in the
+            # arguments of those applications, not in the value the function returns
+            extra = []
+            for c_ in f.calls:
+                if re.search(r"ops::function::(FnMut::call_mut|Fn::call|FnOnce::call_once)$|nom::internal::Parser::parse$", c_.path or "") and c_.args:
+                    try:
+                        extra.append(et.build(f, c_.args[0]))
+                    except Exception:
+                        pass
             if tree is not None:
                 refs = []
                 _fn_refs(tree, wnames, False, refs)
+                for t_ in extra:
+                    _fn_refs(t_, wnames, False, refs)
                 byp = {}
                 for path, under in refs:
                     byp.setdefault(path, []).append(under)
@@ -347,3 +358,23 @@ def rule_balanced(chk, prog, rule, crate, file_suffix, need, consequence):
                         "%s does not provably restore its per-thread budget (%s): every refused request can consume budget for good, so %s"
                         % (f.path, why, consequence))
     chk.floor(rule, n, need, "per-thread budget guards in %s" % file_suffix)
+
+
+_HARMLESS_STATIC = re.compile(r"^tracing_core::(callsite::DefaultCallsite|metadata::Metadata)|^std::sys::thread_local::[a-z_:]+::Storage<core::cell::Cell<(usize|u8|u16|u32|u64|bool)>, [^>]*>$|"
+                              r"^core::sync::atomic::Atomic<(u8|u16|u32|u64|usize|bool)>$|^&'?\w* ?str$|^&'?\w* ?\[&'?\w* ?str\]$|^\[&'?\w* ?str; \d+\]$")
+
+
+def rule_stateless(chk, prog, rule, crate, consequence):
+    """The parser, checker and evaluator of the rule language keep nothing between two expressions except their verified per-thread budget
+    counters: every static / thread_local of the crate is a tracing call site, a plain counter cell or constant text.  A per-thread memo
+    (a map from syntax to a type or a value) makes the verdict on one expression depend on what the thread has seen before."""
+    n = 0
+    for s_ in prog.items[crate]["statics"]:
+        n += 1
+        ty = prog.types[crate][s_["ty"]]["s"]
+        ok = bool(_HARMLESS_STATIC.search(ty)) or ty == s_["path"]
+        chk.instance(rule, s_["span"]["f"], "static %s: %s" % (s_["path"], ty[:70]), ok, nontrivial=False)
+        if not ok:
+            chk.finding(rule, s_["path"], "static", ty[:60], "%s:%s" % (s_["span"]["f"], s_["span"]["l"]),
+                        "static %s of type %s is state of the %s crate that outlives one expression: %s" % (s_["path"], ty[:100], crate, consequence))
+    chk.floor(rule, n, 2, "statics of the %s crate" % crate)
